@@ -129,6 +129,9 @@ def modelRead (st : MState) (ws : List String) : String :=
   match openFile bytes with
   | none => "read open=throw:pcap_error"
   | some op =>
+    -- an expression libpcap cannot compile is refused: the constructors throw `invalid_pcap_filter`, `set_filter` returns false
+    if kvOf ws "bad" == some "1" && usesFilter o then
+      (if o.filt == "post" then "read open=ok set_filter=0" else "read open=throw:invalid_pcap_filter") else
     let pre := s!"read open=ok dlt={op.dlt}"
     let filter : Frame → Bool := fun f =>
       if usesFilter o then (match lookupAnn st f with | some a => a.m | none => false) else true
@@ -317,6 +320,10 @@ def checkRead (st : OState) (ws : List String) (ow : List String) : String :=
   | none => "violates unparsable-output"
   | some opn =>
     if st.size < 24 then (if opn.startsWith "throw:" then "ok" else "violates open-of-headerless-file")
+    else if kvOf ws "bad" == some "1" && usesFilter o then
+      -- what is not a filter expression selects nothing: it must be refused, not installed
+      (if (o.filt == "post" && opn == "ok" && kvOf ow "set_filter" == some "0") || (o.filt != "post" && opn == "throw:invalid_pcap_filter")
+       then "ok" else s!"violates invalid-filter-accepted open={opn}")
     else if opn != "ok" then s!"violates open {opn}"
     else if kvOf ow "dlt" != some (toString dlt) then s!"violates link-type expected={dlt}"
     else
